@@ -31,7 +31,7 @@ theorem encFields_prim_mem (delim : Text) (attrs : Attrs) (fields : List Fld) (h
 /-- a declared header member that is set is sent under its name with its exact text -/
 theorem response_header (mime : Text) (hdrFields : List Fld) (hp : PrimHeader hdrFields) (attrs : Attrs)
     (ret : RetVal) (n : Text) (occ : Occ) (t : Ty) (hf : (n, occ, t) ∈ hdrFields) (v : Leaf) (text : Text)
-    (hv : getAttr attrs n = .leaf v) (ht : leafText v = some text) :
+    (hv : getAttr attrs n = .leaf v) (ht : hdrText v = some text) :
     (n, text) ∈ (response mime hdrFields (.obj attrs) ret).1 := by
   simp only [response, hdrPairs, encode, List.mem_cons, List.mem_append, List.mem_flatMap]
   right; left
